@@ -29,7 +29,7 @@ pub fn scenarios(quick: bool) -> Vec<Scenario> {
     for other in [s(&["unwatch-all"]), s(&["unwatch k"]), s(&["<disconnect>"]), s(&["watch k", "unwatch k"])] {
         out.push(Scenario {
             name: "subscribe-vs-other-unsubscribe",
-            setup: Setup { strategy: "none", init: s(&["set k 0", "set j 0"]), session_init: vec![vec![tok()], vec![tok(), "watch k".into(), "watch j".into()], vec![tok()]] },
+            setup: Setup { strategy: "none", init: s(&["set k 0", "set j 0"]), session_init: vec![vec![tok()], vec![tok(), "watch k".into(), "watch j".into()], vec![tok()]], check_replica: false },
             programs: vec![s(&["watch k"]), other, s(&["set k a1"])],
             sub_keys: vec!["k"],
         });
@@ -38,7 +38,7 @@ pub fn scenarios(quick: bool) -> Vec<Scenario> {
     for other in [s(&["watch k", "unwatch k"]), s(&["watch k", "unwatch-all"]), s(&["watch k", "<disconnect>"]), s(&["watch j", "unwatch-all"])] {
         out.push(Scenario {
             name: "subscribed-vs-other-churn",
-            setup: Setup { strategy: "none", init: s(&["set k 0", "set j 0"]), session_init: vec![vec![tok(), "watch k".into()], vec![tok()], vec![tok()]] },
+            setup: Setup { strategy: "none", init: s(&["set k 0", "set j 0"]), session_init: vec![vec![tok(), "watch k".into()], vec![tok()], vec![tok()]], check_replica: false },
             programs: vec![vec![], other, s(&["set k a1", "set k a2"])],
             sub_keys: vec!["k"],
         });
@@ -47,7 +47,7 @@ pub fn scenarios(quick: bool) -> Vec<Scenario> {
     for sub in [s(&["watch k", "unwatch k"]), s(&["watch k", "unwatch-all"]), s(&["watch k", "<disconnect>"])] {
         out.push(Scenario {
             name: "own-subscribe-unsubscribe-vs-writes",
-            setup: Setup { strategy: "none", init: s(&["set k 0"]), session_init: vec![vec![tok()], vec![tok()]] },
+            setup: Setup { strategy: "none", init: s(&["set k 0"]), session_init: vec![vec![tok()], vec![tok()]], check_replica: false },
             programs: vec![sub, s(&["set k a1", "set k a2"])],
             sub_keys: vec!["k"],
         });
@@ -55,26 +55,26 @@ pub fn scenarios(quick: bool) -> Vec<Scenario> {
     // refused writes, other keys, removes, increments
     out.push(Scenario {
         name: "refused-and-foreign-writes",
-        setup: Setup { strategy: "none", init: s(&["set k 0", "set k 0", "set j 0"]), session_init: vec![vec![tok(), "watch k".into()], vec![tok()], vec![tok()]] },
+        setup: Setup { strategy: "none", init: s(&["set k 0", "set k 0", "set j 0"]), session_init: vec![vec![tok(), "watch k".into()], vec![tok()], vec![tok()]], check_replica: false },
         programs: vec![vec![], s(&["set-safe k 0 r1", "set j x1", "remove k"]), s(&["set k a1"])],
         sub_keys: vec!["k"],
     });
     out.push(Scenario {
         name: "two-writers-final-view",
-        setup: Setup { strategy: "none", init: s(&["set k 0"]), session_init: vec![vec![tok(), "watch k".into()], vec![tok()], vec![tok()]] },
+        setup: Setup { strategy: "none", init: s(&["set k 0"]), session_init: vec![vec![tok(), "watch k".into()], vec![tok()], vec![tok()]], check_replica: false },
         programs: vec![vec![], s(&["set k a1", "set-safe k 5 a3"]), s(&["set k a2"])],
         sub_keys: vec!["k"],
     });
     out.push(Scenario {
         name: "two-incrementers",
-        setup: Setup { strategy: "none", init: s(&["set k 5"]), session_init: vec![vec![tok(), "watch k".into()], vec![tok()], vec![tok()]] },
+        setup: Setup { strategy: "none", init: s(&["set k 5"]), session_init: vec![vec![tok(), "watch k".into()], vec![tok()], vec![tok()]], check_replica: false },
         programs: vec![vec![], s(&["increment k", "remove k"]), s(&["increment k"])],
         sub_keys: vec!["k"],
     });
     if !quick {
         out.push(Scenario {
             name: "two-subscribers-two-writers",
-            setup: Setup { strategy: "none", init: s(&["set k 0", "set j 0"]), session_init: vec![vec![tok()], vec![tok(), "watch k".into()], vec![tok()], vec![tok()]] },
+            setup: Setup { strategy: "none", init: s(&["set k 0", "set j 0"]), session_init: vec![vec![tok()], vec![tok(), "watch k".into()], vec![tok()], vec![tok()]], check_replica: false },
             programs: vec![s(&["watch k", "watch j"]), s(&["unwatch-all"]), s(&["set k a1", "set j b1"]), s(&["set k a2"])],
             sub_keys: vec!["k", "j"],
         });
